@@ -22,7 +22,7 @@ pub fn prop() -> Prop {
          tokens_reached equal the parser's high-water marks. Non-trivial: n within 2 of L, or r within 2 of d with \
          d >= 2; distinct by (text, n, r).",
     )
-    .random("limits", check, |t| if t == Tier::Quick { 250_000 } else { 4_000_000 }, |t| if t == Tier::Quick { 400 } else { 800 })
+    .random("limits", check, |t| if t == Tier::Quick { 700_000 } else { 6_000_000 }, |t| if t == Tier::Quick { 400 } else { 800 })
     .text(check_text)
     .assumptions(&[
         "depth convention read from the property statement and confirmed on the crate's documented examples: a selection set adds 1 while inside it, each non-empty list value adds 1 around its items, each object field adds 1 around its value, each list type adds 1; `[]`, `{}` add nothing",
